@@ -129,11 +129,6 @@ Inductive one_edit (scope : list string) : docT -> docT -> Prop :=
 | E_untype_param : forall raw l1 n d l2 r,
     one_edit scope (mkdoc raw (l1 ++ (n, Some d) :: l2) r) (mkdoc raw (l1 ++ (n, None) :: l2) r).
 
-(* the one edit on which the implementation leaks a TypeError (open finding C19-untyped-param) *)
-Definition is_untype_param (doc doc' : docT) : Prop :=
-  exists raw l1 n d l2 r,
-    doc = mkdoc raw (l1 ++ (n, Some d) :: l2) r /\ doc' = mkdoc raw (l1 ++ (n, None) :: l2) r.
-
 (* one-hole contexts of type expressions: "at any nesting depth" *)
 Inductive ectx :=
 | CHole
